@@ -485,6 +485,23 @@ pub fn run(which: Which, tier: &str, seed: u64, out: &str) {
         coverage.put("closures", J::Arr(cl));
     }
 
+    // ---- C17(b): the move list the real quiescence search uses at every node it reaches
+    if which == Which::C17 && !rep.saturated() {
+        let tq = trace_part(&mg, &rep, &roots, thorough);
+        total_states += tq.0;
+        total_transitions += tq.1;
+        coverage.put(
+            "quiescence_trace",
+            J::obj()
+                .set("start_states", tq.2)
+                .set("distinct_quiescence_nodes_checked", tq.0)
+                .set("of_which_in_check", tq.3)
+                .set("moves_in_checked_lists", tq.1)
+                .set("node_cap_per_start_state", tq.4)
+                .set("explanation", "from every state within the listed plies of the roots the real search_until_quiet runs (full window, node-capped) with the trace hook on; at every node it reaches, the move list it is about to iterate must equal every legal move (in check) or the tactical set (not in check), and its own in-check flag must agree with the rules"),
+        );
+    }
+
     let t = &pc.tally;
     coverage.put(
         "vacuity_guard",
@@ -559,3 +576,129 @@ pub fn replay_one(which: Which, fen: &str) -> i32 {
 
 #[allow(dead_code)]
 fn _unused(_: Side) {}
+
+/// C17(b): runs the real quiescence search from every state near the roots with the trace hook
+/// on and checks the move list of every distinct node reached.
+/// Returns (distinct nodes checked, moves in their lists, start states, nodes in check, cap).
+fn trace_part(mg: &MoveGenerator, rep: &Report, roots: &[roots::Root], thorough: bool) -> (u64, u64, u64, u64, u64) {
+    use crate::search::Searcher;
+    use std::collections::HashSet;
+    use std::sync::atomic::{AtomicU64, Ordering};
+    use std::time::Duration;
+    let layers = if thorough { 2 } else { 1 };
+    let cap: u64 = if thorough { 3000 } else { 800 };
+    let mut starts: Vec<Board> = Vec::new();
+    let mut seen_start = HashSet::new();
+    for r in roots {
+        for b in crate::props::c05::neighbourhood(mg, rep, &r.pos.fen(0, 1), layers) {
+            if seen_start.insert(eng::key_of(&b)) {
+                starts.push(b);
+            }
+        }
+    }
+    const SH: usize = 64;
+    let seen: Vec<Mutex<HashSet<eng::EKey>>> = (0..SH).map(|_| Mutex::new(HashSet::new())).collect();
+    let nodes = AtomicU64::new(0);
+    let moves = AtomicU64::new(0);
+    let checks = AtomicU64::new(0);
+    crate::par::par_map_init(
+        &starts,
+        || None::<Searcher>,
+        |s, b| {
+            if rep.saturated() {
+                return;
+            }
+            if s.is_none() {
+                *s = Some(Searcher::new());
+            }
+            crate::timer::verif::set_node_clock(Some(1));
+            crate::search::verif::set_quiescence_trace(true);
+            let r = guard(|| s.as_mut().unwrap().verif_quiesce(b, Some(Duration::from_millis(cap))));
+            let trace = crate::search::verif::take_quiescence_trace();
+            crate::search::verif::set_quiescence_trace(false);
+            if r.is_err() {
+                *s = None;
+                rep.violation(format!("C17 fen={} panic=quiescence", eng::fen_of(b)), format!("quiescence search from {:?}: {}", eng::fen_of(b), r.err().unwrap()), vec![], J::Null);
+                return;
+            }
+            for (tb, flag, list) in trace {
+                let k = eng::key_of(&tb);
+                let h = (k.colors[0] ^ k.colors[1].rotate_left(17) ^ k.pieces[0]) as usize % SH;
+                if !seen[h].lock().unwrap().insert(k) {
+                    continue;
+                }
+                let p = match eng::pos_of(&tb) {
+                    Ok(p) => p,
+                    Err(_) => continue,
+                };
+                let fen = p.fen4();
+                let in_check = p.in_check(p.stm);
+                let mut want = if in_check { p.legal_moves() } else { p.tactical_moves() };
+                want.sort();
+                let mut got: Vec<Mv> = list.iter().map(eng::mv_of).collect();
+                got.sort();
+                nodes.fetch_add(1, Ordering::Relaxed);
+                moves.fetch_add(got.len() as u64, Ordering::Relaxed);
+                if in_check {
+                    checks.fetch_add(1, Ordering::Relaxed);
+                }
+                let mut dedup = got.clone();
+                dedup.dedup();
+                if flag != in_check || dedup != want || dedup.len() != got.len() {
+                    let missing: Vec<Mv> = want.iter().filter(|m| !dedup.contains(m)).cloned().collect();
+                    let extra: Vec<Mv> = dedup.iter().filter(|m| !want.contains(m)).cloned().collect();
+                    rep.violation(
+                        format!("C17 fen={} qnode", fen),
+                        format!(
+                            "quiescence node {:?} ({}): the search examines [{}] but should examine {}: missing [{}] extra [{}] duplicates {}; its in-check flag is {}",
+                            fen,
+                            if in_check { "side to move in check" } else { "not in check" },
+                            eng::moves_text(&got),
+                            if in_check { "every legal move" } else { "exactly the captures, promotions and checks" },
+                            eng::moves_text(&missing),
+                            eng::moves_text(&extra),
+                            got.len() - dedup.len(),
+                            flag
+                        ),
+                        vec!["c17-trace-one".to_string(), "--fen".into(), fen.clone()],
+                        J::Null,
+                    );
+                }
+            }
+        },
+    );
+    (nodes.load(Ordering::Relaxed), moves.load(Ordering::Relaxed), starts.len() as u64, checks.load(Ordering::Relaxed), cap)
+}
+
+/// Replay of one traced quiescence node: runs the real quiescence search from the FEN and
+/// checks the root node's list (the first trace entry).
+pub fn replay_trace_one(fen: &str) -> i32 {
+    use crate::search::Searcher;
+    let p = Pos::from_fen(fen).unwrap();
+    let b = eng::board_of(&p).unwrap();
+    crate::timer::verif::set_node_clock(Some(1));
+    crate::search::verif::set_quiescence_trace(true);
+    let mut s = Searcher::new();
+    let _ = guard(|| s.verif_quiesce(&b, Some(std::time::Duration::from_millis(50))));
+    let trace = crate::search::verif::take_quiescence_trace();
+    crate::search::verif::set_quiescence_trace(false);
+    let (_, flag, list) = match trace.first() {
+        Some(x) => x.clone(),
+        None => {
+            println!("REPLAY-VIOLATION C17 {} no quiescence node traced", fen);
+            return 1;
+        }
+    };
+    let in_check = p.in_check(p.stm);
+    let mut want = if in_check { p.legal_moves() } else { p.tactical_moves() };
+    want.sort();
+    let mut got: Vec<Mv> = list.iter().map(eng::mv_of).collect();
+    got.sort();
+    if flag != in_check || got != want {
+        println!("REPLAY-VIOLATION C17 fen={} qnode :: examines [{}], expected [{}], in-check flag {} (rules: {})", fen, eng::moves_text(&got), eng::moves_text(&want), flag, in_check);
+        1
+    } else {
+        println!("REPLAY-OK C17 trace {}", fen);
+        0
+    }
+}
